@@ -177,6 +177,18 @@ class Facts:
                 continue
             yield b
 
+    def iterator_impl(self, adt_path, crate="anything"):
+        """Path of the crate-local `Iterator::next` of an ADT, or None."""
+        cache = self.__dict__.setdefault("_iter_impl", {})
+        if adt_path not in cache:
+            hit = None
+            for b in self.all:
+                p = b.path
+                if p.startswith("<" + adt_path) and p.endswith(" as std::iter::Iterator>::next"):
+                    hit = p
+            cache[adt_path] = hit
+        return cache[adt_path]
+
     def const(self, path, crate="anything"):
         k = self.consts.get((crate, path))
         if k is None or k["val"] is None:
